@@ -42,10 +42,12 @@ AsMsg(o) == [ty |-> o.ty, seq |-> o.seq, hb |-> o.hb, enc |-> o.enc, refSeq |-> 
              trid |-> o.trid, b |-> o.b, e |-> o.e, dupOf |-> o.dupOf, user |-> o.user, pass |-> o.pass]
 
 \* what the properties fix about a message (R2): everything else is not compared
+SeqNumTag == 34
 MatchMsg(e, g) ==
   /\ e.ty = g.ty /\ e.seq = g.seq /\ e.dupOf = g.dupOf
   /\ (e.ty = "A" => e.hb = g.hb /\ e.enc = g.enc /\ e.user = g.user /\ e.pass = g.pass)
-  /\ (e.ty = "3" => (e.refSeq >= 0 => g.refSeq = e.refSeq) /\ (e.refTag >= 0 => g.refTag = e.refTag))
+  \* (a Reject names the sequence-number tag when, and only when, that number itself is missing or not numeric)
+  /\ (e.ty = "3" => (e.refSeq >= 0 => g.refSeq = e.refSeq) /\ (e.refTag >= 0 => g.refTag = e.refTag) /\ (e.refTag # SeqNumTag => g.refTag # SeqNumTag))
   /\ (e.ty = "0" => e.trid = g.trid)
   /\ (e.ty = "2" => e.b = g.b /\ e.e = g.e)
 
